@@ -58,6 +58,9 @@ CLAIMED['C16'] = ('other', 'mixed, same machinery as C15: on pairs of objects wi
 CLAIMED['C20'] = ('other', 'partial scope (DESIGN.md C20): bounded symbolic execution of GymEnvironment / GymStateWrapper wrapped directly around OuterEnv(GridWorld) with a lazily symbolic inner state and a symbolic action index over permuted / partial action spaces: step(i) executes the i-th action and returns the representation of the observation of the functional next state, the inner reward and flag and an empty info, inside the advertised spaces; reset returns the observation of the fresh state; the state wrapper and representation switching behave as documented',
                   'trusts z3, the proxy layer, the stubs, gym 0.26.2 space classes; gym.make(<id>) and GymEnvironment.seed are outside (installed gym is 0.26, the repository targets gym<=0.21)', 'DESIGN.md §5 C20')
 
+CLAIMED['C17'] = ('other', 'partial scope (DESIGN.md C17): for every shipped configuration the environment built by factory_env_from_data and one assembled in the harness from the named registry functions are compared by bounded symbolic execution - equal next states for a lazily symbolic state and action, equal reward / flag / observation for a symbolic agent pose and action on reset layouts, equal initial states for the same symbolic draws - and structurally (same functions, same bound parameters, unaccepted ones dropped; spaces; input dict unchanged; second build agrees); factory(name, **kw) binds exactly the accepted keywords for symbolic numeric parameters. Identity of packaged copies, id-to-file mapping and rejection of corrupted files are concrete side checks',
+                  'trusts z3, the proxy layer, the stubs and the mini YAML reader (PyYAML is not installed in the sandbox); gym.make is outside', 'DESIGN.md §5 C17')
+
 NOT_APPLICABLE = {
     'C19': 'floating-point trigonometric ray kernel (sin/cos/arctan2 via libm/numpy, round-to-nearest of accumulated float steps): no SMT theory for the transcendental part, the only FP-expressible lemma timed out (300 s) on z3 and cvc5, and the remaining inputs form a small finite domain a solver would merely enumerate; see DESIGN.md §5 C19',
 }
